@@ -369,7 +369,7 @@ def judge(res, specs, traces, owner, v):
 def sample_runs(specs, res):
     hk = hooks()
     traces, owner = [], []
-    cnt = {"runs": 0, "runs_raised_without_sample": 0, "runs_raised_later": 0, "samples": 0, "hook_events": 0,
+    cnt = {"runs": 0, "runs_raised_without_sample": 0, "runs_raised_later": 0, "samples_judged": 0, "hook_events": 0,
            "oversize_runs_not_sent": 0, "flag_yes": 0, "flag_no": 0, "exact_clause_applicable": 0,
            "samples_with_coincidence_or_lost": 0}
     raised_kinds, by_mode = {}, {}
@@ -384,7 +384,7 @@ def sample_runs(specs, res):
         if tr is None:
             cnt["oversize_runs_not_sent"] += 1
             continue
-        cnt["samples"] += st["samples"]
+        cnt["samples_judged"] += st["samples"]
         cnt["hook_events"] += st["hook_events"]
         for e in tr["ev"]:
             if e["k"] == "sample":
